@@ -29,12 +29,20 @@ func (sim) Generate(prop, tier string, seed uint64) *core.Plan {
 	g := &gen{r: r, w: w, c: c, prop: prop}
 	for len(p.Ops) < c0.nops {
 		for _, op := range g.next() {
+			if prop == "C10" && enumerable[op.K] && (tier == "thorough" || r.Chance(1, 4)) {
+				// C10: this operation instance is selected for fault enumeration
+				op.S = []string{"enum"}
+			}
 			w.apply(op)
 			p.Ops = append(p.Ops, op)
 		}
 	}
 	return p
 }
+
+// enumerable: the kinds that mutate the store through a database transaction.
+var enumerable = map[string]bool{"mem": true, "mine": true, "rollback": true, "reconnect": true, "redeliver": true,
+	"rbf": true, "abandon": true, "lock": true, "unlock": true, "sweep": true}
 
 func (g *gen) next() []core.Op {
 	ws := make([]int, len(opKinds))
